@@ -130,6 +130,10 @@ class Program:
         self.types = TypeTables(os.path.join(src_root, 'src'), extra)
         self._src_cache = {}
         self.ext_consts = {}
+        self.class_ids = {}
+        if proto_rs:
+            for m in re.finditer(r'pub mod (\w+) \{\s*use super::\*;\s*/// Get the id of the AMQP class\s*pub fn get_id\(\) -> ShortUInt \{\s*return (\d+);', open(proto_rs).read()):
+                self.class_ids[m.group(1)] = int(m.group(2))
         for p in glob.glob(os.path.expanduser('~/.cargo/registry/src/*/input_buffer-0.5*/src/lib.rs')):
             m = re.search(r'pub const MIN_READ: usize = (\d+);', open(p).read())
             if m:
